@@ -60,7 +60,8 @@ def r171_172(ctx):
            "the inner loop runs ceil(n / batch_size) times (batch_size = n when -1)", construct="batch loop bound")
     bi = inner.data["elem"]
     b["bi"] = bi
-    b["n_here"] = A.at(t, "X.shape[0]")  # the (possibly shuffled) X of this epoch: same row count
+    x_here = arg(t, 0).args[0] if arg(t, 0) is not None and arg(t, 0).op == "sub" else X
+    b["n_here"] = A.spec("XH.shape[0]", {"XH": x_here})  # the (possibly shuffled) X of this epoch: same row count
     sl = A.spec("slc(bi * bs, min((bi + 1) * bs, n_here))", b)
     shuffled = any(e.kind == "call" and e.data["fterm"].op == "attr" and e.data["fterm"].args[1] == "shuffle" for e in r.events)
     okx = []
@@ -121,9 +122,10 @@ def r171_172(ctx):
     if stopret and cbs:
         lit = stopret[0].pc[-1]
         # stop = stop or result, accumulated over the callbacks
-        oks = contains(lit, lambda s: s.op in ("loopout",) and s.args[0] == "stop") or contains(
-            lit, lambda s: s is cbs[0].data["result"])
-        acc = [e for e in ev_in if e.kind == "store" and e.data.get("tkind") == "name" and e.data["name"] == "stop" and len(e.loops) == 3]
+        flag = [s for s in subterms(lit) if s.op == "loopout"]
+        oks = bool(flag) or contains(lit, lambda s: s is cbs[0].data["result"])
+        fname = flag[0].args[0] if flag else None
+        acc = [e for e in ev_in if e.kind == "store" and e.data.get("tkind") == "name" and e.data["name"] == fname and len(e.loops) == 3]
         oks = oks and len(acc) == 1 and A.C.canon(acc[0].data["value"]).op == "or" and contains(
             acc[0].data["value"], lambda s: s is cbs[0].data["result"])
     ctx.ob("R17.2", fq, stopret[0].node if stopret else None, oks, "fit returns self as soon as a callback of the current step "
